@@ -104,6 +104,11 @@ func bodyMenu() map[string][]*N {
 		"leaf-list": {{Kind: "leaf-list", Name: "ll", Type: "string"}},
 		"typedef":   {lf("l", "T")},
 		"must":      {{Kind: "container", Name: "c", Props: []string{`must "l = 'x'" { error-message "em"; }`}, Kids: []*N{lf("l", "string")}}},
+		// every statement a refine may carry is already there with another value: the refined one replaces it
+		"prefilled": {lf("l", "string", `default "dv";`, `description "od";`),
+			{Kind: "container", Name: "c", Props: []string{`presence "op";`, `description "oc";`, `config true;`}, Kids: []*N{lf("l", "string", `default "id";`), lf("m", "int8")}},
+			{Kind: "leaf-list", Name: "ll", Type: "string", Props: []string{"min-elements 2;", "max-elements 7;"}}},
+		"prefilled-list": {{Kind: "list", Name: "li", Props: []string{"min-elements 2;", "max-elements 9;", `description "ol";`}, Kids: []*N{lf("k", "string"), lf("v", "string")}}},
 		// mandatory nodes (top-level augments only: fine in the own module, refused in another one)
 		"mand-leaf":      {lf("l", "string", "mandatory true;")},
 		"mand-choice":    {{Kind: "choice", Name: "ch", Props: []string{"mandatory true;"}, Kids: []*N{lf("x", "string"), lf("y", "string")}}},
@@ -117,7 +122,7 @@ func bodyMenu() map[string][]*N {
 	}
 }
 
-var bodyNames = []string{"leaf", "leaf-def", "container", "list", "choice", "leaf-list", "typedef", "must", "iffeature", "iffeature-same"}
+var bodyNames = []string{"leaf", "leaf-def", "container", "list", "choice", "leaf-list", "typedef", "must", "iffeature", "iffeature-same", "prefilled", "prefilled-list"}
 
 // Mod is one modification of the uses.
 type Mod struct {
